@@ -40,6 +40,10 @@ pub struct Case {
     pub seed: u64,
     #[serde(default)]
     pub keep_known: bool,
+    /// further options that must not change which wrappers are written or how they are named:
+    /// 0 none, 1 --c-naming, 2 --enable-cxx-namespaces, 3 --merge-extern-blocks --sort-semantically
+    #[serde(default)]
+    pub extra: u8,
 }
 
 const SUFFIXES: &[&str] = &["_w", "__wrapped", "X", "_1"];
@@ -104,8 +108,9 @@ impl Property for C16 {
             proptest::bool::weighted(0.2),
             proptest::bool::weighted(0.3),
             any::<u64>(),
+            prop_oneof![5 => Just(0u8), 2 => Just(1u8), 2 => Just(2u8), 1 => Just(3u8)],
         )
-            .prop_map(|(lib, suffix, cpp, mode, styles, with_va_list_fn, custom_path, seed)| Case { lib, suffix: suffix.map(|i| SUFFIXES[i].to_string()), cpp, mode, styles, with_va_list_fn, custom_path, seed, keep_known: false })
+            .prop_map(|(lib, suffix, cpp, mode, styles, with_va_list_fn, custom_path, seed, extra)| Case { lib, suffix: suffix.map(|i| SUFFIXES[i].to_string()), cpp, mode, styles, with_va_list_fn, custom_path, seed, keep_known: false, extra })
             .boxed()
     }
     fn generated(&self, tier: Tier) -> usize {
@@ -137,6 +142,24 @@ impl Property for C16 {
                 out.excluded_known += n0 - lib.funcs[k].params.len();
                 if lib.funcs[k].variadic.is_some() && lib.funcs[k].params.is_empty() {
                     lib.funcs[k].params.push(PTy::Sc(c04::Sc::Int));
+                }
+                // (a'') and for parameters that are pointers to arrays (`T (*p)[n]`, `T p[a][b]`) or
+                //      arrays of function pointers: the declarator is spelled prefix-style
+                let n1 = lib.funcs[k].params.len();
+                lib.funcs[k].params.retain(|p| !matches!(p, PTy::PtrToArray(..) | PTy::Array2D(..) | PTy::CallbackArray(_)));
+                out.excluded_known += n1 - lib.funcs[k].params.len();
+                if lib.funcs[k].variadic.is_some() && lib.funcs[k].params.is_empty() {
+                    lib.funcs[k].params.push(PTy::Sc(c04::Sc::Int));
+                }
+                // (d) a const-qualified function-pointer parameter gets a second `const` in front of the
+                //     return type (`const int (*const p)(int, double)`): C accepts the call, C++ does not
+                if case.cpp {
+                    for p in lib.funcs[k].params.iter_mut() {
+                        if *p == PTy::ConstCallback {
+                            *p = PTy::Callback;
+                            out.excluded_known += 1;
+                        }
+                    }
                 }
                 // (a') the same declarator problem for a function that returns a function pointer
                 if lib.funcs[k].ret == RTy::FnPtr {
@@ -206,7 +229,15 @@ impl Property for C16 {
             flags.push("--wrap-static-fns-suffix".into());
             flags.push(sfx.clone());
         }
-        let ctx = |what: &str| format!("{what}\nmode {:?} cpp={cpp} suffix {:?} custom_path={}\n--- header ---\n{types}{fns}", case.mode, case.suffix, case.custom_path);
+        let extra_flags: &[&str] = match case.extra % 4 {
+            1 => &["--c-naming"],
+            2 => &["--enable-cxx-namespaces"],
+            3 => &["--merge-extern-blocks", "--sort-semantically"],
+            _ => &[],
+        };
+        flags.extend(extra_flags.iter().map(|f| f.to_string()));
+        out.class(format!("options:{}", if extra_flags.is_empty() { "plain".to_string() } else { extra_flags.join("+") }));
+        let ctx = |what: &str| format!("{what}\nmode {:?} cpp={cpp} suffix {:?} custom_path={} extra {extra_flags:?}\n--- header ---\n{types}{fns}", case.mode, case.suffix, case.custom_path);
         // ---- bindgen
         let result = match case.mode {
             HeaderMode::Contents => {
@@ -218,6 +249,12 @@ impl Property for C16 {
                 if let Some(sfx) = &case.suffix {
                     b = b.wrap_static_fns_suffix(sfx);
                 }
+                b = match case.extra % 4 {
+                    1 => b.c_naming(true),
+                    2 => b.enable_cxx_namespaces(),
+                    3 => b.merge_extern_blocks(true).sort_semantically(true),
+                    _ => b,
+                };
                 bg::generate_with(b)
             }
             _ => {
@@ -280,7 +317,26 @@ impl Property for C16 {
             Ok(o) if o.ok() => {}
             Ok(o) => {
                 let first = o.stderr.lines().find(|l| l.contains("error")).unwrap_or("").to_string();
-                let class: String = first.split("error:").nth(1).unwrap_or("").chars().filter(|c| !c.is_ascii_digit()).take(50).collect::<String>().trim().replace(' ', "-");
+                // names and types quoted by clang are input-specific: the class is the message skeleton
+                let mut skeleton = String::new();
+                let mut quoted = false;
+                for c in first.split("error:").nth(1).unwrap_or("").chars() {
+                    if c == '\'' {
+                        quoted = !quoted;
+                        if quoted {
+                            skeleton.push('_');
+                        }
+                    } else if !quoted && !c.is_ascii_digit() {
+                        skeleton.push(c);
+                    }
+                }
+                let mut class: String = skeleton.chars().take(50).collect::<String>().trim().replace(' ', "-");
+                // (only cases that keep the known declarator classes contain such parameters)
+                if lib.funcs.iter().any(|f| f.params.iter().any(|p| matches!(p, PTy::PtrToArray(..) | PTy::Array2D(..) | PTy::CallbackArray(_)))) {
+                    class.push_str("/array-shaped-parameter");
+                } else if case.cpp && lib.funcs.iter().any(|f| f.params.iter().any(|p| *p == PTy::ConstCallback)) {
+                    class.push_str("/const-callback-parameter");
+                }
                 out.fail(format!("wrapper-does-not-compile/{class}"), ctx(&format!("{}\n--- wrapper source ---\n{wrap_text}", o.stderr.chars().take(1200).collect::<String>())));
                 return out;
             }
@@ -359,6 +415,8 @@ impl Property for C16 {
         if src.is_empty() {
             return out;
         }
+        // with C++ namespaces everything lives in `root`
+        let src = if case.extra % 4 == 2 { src.replacen("include!(\"b.rs\");", "include!(\"b.rs\");\nuse root::*;", 1) } else { src };
         std::fs::write(dir.join("caller.rs"), &src).ok();
         let o = match (tools::Rustc { dir, edition: "2021", nightly: false }).build_exe("caller.rs", "caller.exe", &["wrappers.o".to_string(), "globals.o".to_string()], false) {
             Ok(o) => o,
